@@ -295,7 +295,12 @@ def jobs(tier):
     cs = sorted([c for c in conditions() if tier in c.tiers], key=lambda c: -c.cost)
     out = []
     for c in cs:
-        j = Job(c.name, engine='ch', ch_file=CONDS_FILE, ch_func=c.func, ch_timeout=c.timeout, note=c.proves)
+        kfid = None
+        if c.name.startswith('estimatefee_limit') and 'nodefault' not in c.name:
+            kfid = 'C20-estimatefee-falls-back-to-network-default'
+        elif c.name.startswith('isspent_limit'):
+            kfid = 'C20-isspent-failure-reported-as-unspent'
+        j = Job(c.name, engine='ch', ch_file=CONDS_FILE, ch_func=c.func, ch_timeout=c.timeout, note=c.proves, known_finding=kfid)
         j.cost = c.cost
         out.append(j)
     return out
